@@ -270,6 +270,111 @@ def check(prog, rep):
             if name.startswith("H") or ob.key.startswith(("moved-wrongly|H", "left-behind|H")):
                 r5.add(ob.key, ob.ok, ob.what, ob.where)
 
+    # ------------------------------------------------------------------ R6
+    rule_peptide_pointers(prog, rep, t)
+
+
+def rule_peptide_pointers(prog, rep, t, rid="R6"):
+    """The C(i-1)/N(i+1) pointers are frame atoms of the superposition that builds H and O: they may stay set only
+    when the two atoms are within the peptide-bond limit, and the limit separates bonded from 1-3 distances."""
+    from ..guards import Sym, Unknown, explore
+    r = rep.rule(rid, "cross-residue frame atoms (peptide_c / peptide_n) are set only across a real peptide bond", floor=5)
+    fn = prog.func("biomolecule.py", "Biomolecule.update_bonds")
+    loops = [lp for lp in walk_no_defs(fn.node) if isinstance(lp, ast.For)
+             and any(isinstance(n, ast.Attribute) and n.attr in ("peptide_c", "peptide_n") and isinstance(n.ctx, ast.Store) for n in ast.walk(lp))]
+    if not loops:
+        raise AnalysisError("Biomolecule.update_bonds: the loop that sets peptide_c / peptide_n was not found")
+    lp = [x for x in loops if not any(y is not x and y in ast.walk(x) for y in loops)][0]  # innermost
+    where = f"pdb2pqr/biomolecule.py:{lp.lineno} (Biomolecule.update_bonds)"
+    limits = set()
+    for n in ast.walk(lp):
+        if isinstance(n, ast.Compare) and len(n.ops) == 1:
+            a, b = U(n.left), U(n.comparators[0])
+            if ("distance(" in a) != ("distance(" in b):
+                limits.add(b if "distance(" in a else a)
+    if len(limits) != 1:
+        raise AnalysisError(f"update_bonds: expected one distance test in the pointer loop, found {sorted(limits)}")
+    limit_txt = limits.pop()
+    consts = dict(prog.module_constants("config.py"))
+    consts.update(prog.module_constants("biomolecule.py"))
+    limit = try_fold(ast.parse(limit_txt, mode="eval").body, consts)
+    A1, A2 = {"name": "C", "coords": "c1"}, {"name": "N", "coords": "c2"}
+    n_paths = 0
+    for has1, has2, order in itertools.product((True, False), (True, False), ("lt", "eq", "gt")):
+        if not (has1 and has2) and order != "lt":
+            continue
+
+        def make_env():
+            r1 = {"peptide_c": "prior", "peptide_n": None, "__res__": 1}
+            r2 = {"peptide_c": None, "peptide_n": "prior", "__res__": 2}
+            env = {"chain.residues": [r1, r2], "i": 0, limit_txt: Sym("limit"), f"__order__d_limit": order}
+            if isinstance(lp.target, ast.Tuple) and len(lp.target.elts) == 2:
+                env[U(lp.target.elts[0])], env[U(lp.target.elts[1])] = r1, r2
+            return env
+
+        def hook(it, call):
+            name = U(call.func)
+            if name == "isinstance":
+                return True
+            if isinstance(call.func, ast.Attribute) and call.func.attr in ("get_atom", "has_atom"):
+                who = it.ev(call.func.value)
+                arg = it.ev(call.args[0])
+                if isinstance(who, dict) and (who.get("__res__"), arg) in ((1, "C"), (2, "N")):
+                    present = has1 if arg == "C" else has2
+                    if call.func.attr == "has_atom":
+                        return present
+                    return (A1 if arg == "C" else A2) if present else None
+                return Unknown(U(call))
+            if name.endswith("distance"):
+                args = {U(a) for a in call.args}
+                return Sym("d")
+            return Unknown(U(call))
+
+        for oracle, it, flow in explore(lp.body, make_env, call_hook=hook):
+            n_paths += 1
+            r1, r2 = it.env["chain.residues"]
+            pc, pn = r2["peptide_c"], r1["peptide_n"]
+            case = f"C {'present' if has1 else 'missing'}, N {'present' if has2 else 'missing'}" + (f", distance {dict(lt='<', eq='=', gt='>')[order]} {limit_txt}" if has1 and has2 else "")
+            free = "; ".join(f"{k[:60]} is {v}" for k, v in oracle.items())
+            key = f"pointers|{'C' if has1 else '-'}{'N' if has2 else '-'}:{order}" + (f"|{free}" if free else "")
+            if has1 and has2 and order == "gt":
+                ok = pc is None and pn is None
+                r.add(key, ok, f"{case}{' when ' + free if free else ''}: res2.peptide_c = {_pp(pc)}, res1.peptide_n = {_pp(pn)} at the end of the iteration; "
+                      + ("both cleared" if ok else "a pointer to an atom beyond bonding distance is kept: the amide H of the residue after the gap (and a "
+                         "missing O before it) is built by superposing the N, CA, C-1 template triangle on that far-away atom"), where)
+            elif has1 and has2:
+                ok = pc is A1 and pn is A2
+                r.add(key, ok, f"{case}{' when ' + free if free else ''}: res2.peptide_c = {_pp(pc)}, res1.peptide_n = {_pp(pn)}"
+                      + ("" if ok else " -- the frame atoms of a bonded pair must be the C and N that form the bond"), where)
+            else:
+                ok = pc in (None, A1) and pn in (None, A2) and (pc is None or has1) and (pn is None or has2)
+                r.add(key, ok, f"{case}: res2.peptide_c = {_pp(pc)}, res1.peptide_n = {_pp(pn)}", where)
+    r.info["paths"] = n_paths
+    # the limit separates the bonded C-N distance from the nearest non-bonded (1-3) distances of the PEPTIDE-patched templates
+    pep = t.patches.get("PEPTIDE")
+    if pep is None or not isinstance(limit, (int, float)):
+        raise AnalysisError("PEPTIDE patch or a constant peptide-bond limit not found")
+    bonded, non = [], []
+    for name in AMINO:
+        ref = t.map.get(name)
+        if ref is None or not {"N", "CA", "C"} <= set(ref.atoms):
+            continue
+        if "N+1" in pep.atoms:
+            bonded.append(math.dist(ref.atoms["C"].xyz, pep.atoms["N+1"][0] if isinstance(pep.atoms["N+1"], tuple) else pep.atoms["N+1"].xyz))
+            non.append(math.dist(ref.atoms["CA"].xyz, pep.atoms["N+1"][0] if isinstance(pep.atoms["N+1"], tuple) else pep.atoms["N+1"].xyz))
+        if "C-1" in pep.atoms:
+            bonded.append(math.dist(ref.atoms["N"].xyz, pep.atoms["C-1"][0] if isinstance(pep.atoms["C-1"], tuple) else pep.atoms["C-1"].xyz))
+            non.append(math.dist(ref.atoms["CA"].xyz, pep.atoms["C-1"][0] if isinstance(pep.atoms["C-1"], tuple) else pep.atoms["C-1"].xyz))
+    if not bonded:
+        raise AnalysisError("no amino-acid template with N, CA, C found")
+    r.add("limit-separates-bonded-from-1-3", max(bonded) < limit < min(non),
+          f"{limit_txt} = {limit}: template C-N bond lengths {min(bonded):.2f}-{max(bonded):.2f} A, nearest non-bonded (CA...N+1, CA...C-1) "
+          f"{min(non):.2f} A; the limit must lie strictly between", "pdb2pqr/config.py")
+
+
+def _pp(v):
+    return "None" if v is None else v if isinstance(v, str) else f"<{v.get('name')}>"
+
 
 def _same_scope(s, c):
     """Append statement s feeds call c: same function; if s is inside a loop, c comes after that loop or inside it."""
